@@ -25,12 +25,15 @@ fn total(prop: &str, tier: &str) -> u64 {
 
 /// run-time operator tables (operands hidden from constant folding behind toInt)
 fn operator_table(rng: &mut Rng) -> Project {
-  let pool: [i64; 16] = [0, 1, -1, 2, -2, 3, 7, -7, 10, -10, 255, 1024, -1024, 46341, 1073741823, -1073741824];
+  let pool: [i64; 25] = [0, 1, -1, 2, -2, 3, 7, -7, 10, -10, 255, 1024, -1024, 46341, 1073741823, -1073741824, 1073741824, -1073741825, 2147483647, -2147483648, 65536, -65536, 32767, -46341, 536870912];
+  // half of the tables use literal operands (constant folding, literal lowering paths), the other
+  // half hide them from the optimizer behind toInt
+  let literal = rng.chance(1, 2);
   let mut body = String::new();
   let n = 10 + rng.below(14);
   for k in 0..n {
     let (a, b) = (*rng.pick(&pool), *rng.pick(&pool));
-    let h = |v: i64| format!("Str.fromInt({v}).toInt()");
+    let h = |v: i64| if literal { format!("{v}") } else { format!("Str.fromInt({v}).toInt()") };
     body.push_str(&format!("    let a{k} = {};\n    let b{k} = {};\n", h(a), h(b)));
     for op in ["<", "<=", ">", ">=", "==", "!="] {
       body.push_str(&format!("    Process.println(\"{a}{op}{b}=\" :: Main.b(a{k} {op} b{k}));\n"));
@@ -45,6 +48,10 @@ fn operator_table(rng: &mut Rng) -> Project {
       body.push_str(&format!("    Process.println(\"{a}+{b}=\" :: Str.fromInt(a{k} + b{k}) :: \" \" :: Str.fromInt(a{k} - b{k}) :: \" \" :: Str.fromInt(-a{k}));\n"));
     }
     // Vec element round trips (int, Str)
+    if literal {
+      // literals written directly at the use sites (element boxing decided at compile time)
+      body.push_str(&format!("    let w{k} = Vec.of({a});\n    w{k}.push({b});\n    w{k}.set(0, {b});\n    Process.println(\"lit vec \" :: Str.fromInt(w{k}.get(0)) :: \",\" :: Str.fromInt(w{k}.get(1)) :: \" \" :: Main.b({a} < {b}) :: Main.b({a} == {b}));\n"));
+    }
     body.push_str(&format!("    let v{k} = Vec.of(a{k});\n    v{k}.push(b{k});\n    Process.println(\"vec \" :: Str.fromInt(v{k}.get(0)) :: \",\" :: Str.fromInt(v{k}.get(1)) :: \" len=\" :: Str.fromInt(v{k}.length()));\n"));
     body.push_str(&format!("    let s{k} = Str.fromInt(a{k}) :: \"|\" :: Str.fromInt(b{k});\n    Process.println(s{k} :: \" eq=\" :: Main.b(s{k} == Str.fromInt({a}) :: \"|\" :: Str.fromInt({b})) :: \" toInt=\" :: Str.fromInt(Str.fromInt(a{k}).toInt()));\n"));
   }
